@@ -80,6 +80,8 @@ type c09hScn struct {
 	capC, capM     int64
 	allocC, allocM int64
 	annoC, annoM   int64 // -1: no reservation annotation
+	annoCPUs       int   // > 0: the annotation also carries reservedCPUs "0-(k-1)", which replaces the cpu amount by k cores
+	annoPolicy     int   // applyPolicy of the annotation: 0 absent 1 "" 2 Default 3 ReservedCPUsOnly 4 unknown string
 	sysC, sysM     int64
 	metricKind     int // 0 present, 1 no update time, 2 NodeMetric object absent
 	age            int64
@@ -160,6 +162,43 @@ func c09hRatioTok(anno map[string]string) (int, int64) {
 	return 2, int64(math.Round(f * 100))
 }
 
+// annoProj: the reservation the annotation declares, by the harness's own reading: reservedCPUs (k cores) replaces the cpu
+// amount of `resources`; applyPolicy only tells the SCHEDULER whether to trim allocatable — the batch / mid formulas
+// subtract the declared amounts under every policy.
+func (s *c09hScn) annoProj() (int64, int64) {
+	if s.annoC < 0 {
+		return -1, -1
+	}
+	if s.annoCPUs > 0 {
+		return int64(s.annoCPUs) * 1000, s.annoM
+	}
+	return s.annoC, s.annoM
+}
+
+var c09hApplyPolicies = []string{"", "", "Default", "ReservedCPUsOnly", "SomethingElse"}
+
+func (s *c09hScn) annoJSON() string {
+	nr := extension.NodeReservation{Resources: c09hRL(s.annoC, s.annoM)}
+	if s.annoCPUs > 0 {
+		nr.ReservedCPUs = fmt.Sprintf("0-%d", s.annoCPUs-1)
+	}
+	b, _ := json.Marshal(nr)
+	js := string(b)
+	if s.annoPolicy > 0 {
+		js = js[:len(js)-1] + fmt.Sprintf(",%q:%q}", "applyPolicy", c09hApplyPolicies[s.annoPolicy])
+	}
+	return js
+}
+
+func c09hGenAnno(r *vRand, s *c09hScn, hi int64) {
+	s.annoC, s.annoM = r.Int63n(hi/8+1), r.Int63n(hi/8+1)
+	s.annoCPUs = 0
+	if hi >= 8000 && r.Chance(1, 2) { // small nodes (capacity <= 1 core): whole cores would reserve everything
+		s.annoCPUs = 1 + r.Intn(int(hi/8000)+1)
+	}
+	s.annoPolicy = []int{0, 0, 1, 2, 3, 3, 3, 4}[r.Intn(8)]
+}
+
 // cpuBound: an upper bound on the documented batch-cpu formula, evaluated from scratch on the scenario: capacity − margin −
 // max(system usage + prod/mid host application, reservation) − what the pods that are high-priority BY LABEL are charged
 // (a lower bound of the HP consumption, so an upper bound of the amount), capped by the batch percentage.
@@ -169,8 +208,8 @@ func (s *c09hScn) cpuBound() int64 {
 	if reserved < 0 {
 		reserved = 0
 	}
-	if s.annoC > reserved {
-		reserved = s.annoC
+	if ac, _ := s.annoProj(); ac > reserved {
+		reserved = ac
 	}
 	sys := s.sysC
 	if s.hostPrio == 0 || s.hostPrio == 1 {
@@ -264,7 +303,7 @@ func (s *c09hScn) strategy() configuration.ColocationCfg {
 func (s *c09hScn) emit(h *vHarness, vnow int64) {
 	h.Op("newround")
 	h.Op("cfg %d %d %d %d %d %d %d", s.cpuThr, s.memThr, s.cpuPol, s.memPol, s.cpuCap, s.memCap, s.degradeMin)
-	ac, am := s.annoC, s.annoM
+	ac, am := s.annoProj()
 	if ac < 0 {
 		ac, am = 0, 0
 	}
@@ -338,8 +377,7 @@ func (s *c09hScn) apply(ctx context.Context, c ctrlclient.Client, first bool) er
 		kept[extension.AnnotationCPUNormalizationRatio] = "xyz"
 	}
 	if s.annoC >= 0 {
-		b, _ := json.Marshal(extension.NodeReservation{Resources: c09hRL(s.annoC, s.annoM)})
-		kept[extension.AnnotationNodeReservation] = string(b)
+		kept[extension.AnnotationNodeReservation] = s.annoJSON()
 	}
 	if len(kept) > 0 {
 		node.Annotations = kept
@@ -585,7 +623,7 @@ func c09hGen(r *vRand) *c09hScn {
 	s.allocC, s.allocM = s.capC-r.Int63n(s.capC/8+1), s.capM-r.Int63n(s.capM/8+1)
 	s.annoC, s.annoM = -1, -1
 	if r.Chance(1, 3) {
-		s.annoC, s.annoM = r.Int63n(hi/8+1), r.Int63n(hi/8+1)
+		c09hGenAnno(r, s, hi)
 	}
 	s.sysC, s.sysM = r.Int63n(hi/8+1), r.Int63n(hi/8+1)
 	s.age = c09hAge(r, s.degradeMin, false)
@@ -736,7 +774,7 @@ func c09hMutate(r *vRand, s *c09hScn) string {
 	case 10: // node update
 		s.allocC, s.allocM = s.capC-r.Int63n(s.capC/8+1), s.capM-r.Int63n(s.capM/8+1)
 		if r.Bool() {
-			s.annoC, s.annoM = r.Int63n(hi/8+1), r.Int63n(hi/8+1)
+			c09hGenAnno(r, s, hi)
 		} else {
 			s.annoC, s.annoM = -1, -1
 		}
@@ -820,6 +858,9 @@ func TestVerifC09History(t *testing.T) {
 			annoEvent := s.annoEvent
 			s.annoEvent = 0
 			h.Tag(fmt.Sprintf("norm:kind=%d", s.normKind))
+			if s.annoC >= 0 {
+				h.Tag(fmt.Sprintf("reservation-anno:cpus=%v,applyPolicy=%d", s.annoCPUs > 0, s.annoPolicy))
+			}
 			var err error
 			if h.Guard(func() { _, err = rec.Reconcile(ctx, ctrl.Request{NamespacedName: types.NamespacedName{Name: "n0"}}) }) {
 				h.Obs("panic")
@@ -990,7 +1031,7 @@ func TestVerifC09History(t *testing.T) {
 	}
 	h.Close("histories of 3-7 reconciles of one node through the real NodeResourceReconciler (fake client; real mid, batch and cpunormalization plugins + a stub ratio producer): rounds change the metric " +
 		"(small / large moves, stale, no update time, NodeMetric deleted), pods (add / remove / phase / priority / request), the strategy (thresholds, policies, " +
-		"diff threshold, sync interval, mid mode, caps, enable toggle), the node (allocatable, reservation annotation), the cpu-normalization inputs (real cpunormalization " +
+		"diff threshold, sync interval, mid mode, caps, enable toggle), the node (allocatable, reservation annotation: resources / reservedCPUs x applyPolicy absent / empty / Default / ReservedCPUsOnly / unknown), the cpu-normalization inputs (real cpunormalization " +
 		"plugin: node label off, NRT cpu-basic-info x ratio model giving 1.00 / 1.05 / 1.20 / 1.50 / 2.00 / 3.33 / 5.00 or no ratio, a stub producer writing an unparsable / " +
 		"empty / 0.80 annotation; node annotations wiped or junk by a third party), or only let 1 s .. 2 x interval pass; " +
 		"non-trivial = a later round with fresh metrics and amounts on the node; distinct by op lines")
